@@ -362,6 +362,92 @@ theorem readPartitions_reads (cluster : List Part) (topics : List Nat) :
     by_cases hp : p.topic = t
     · simp [hp, ht]
     · simp [hp]
+
+/-! ### a missing topic -/
+
+/-- partitions of topic `t` in an accumulator followed by the answers still to come -/
+theorem readTopicMetadata_go (t : Nat) (n : Nat) (hn : n > 1) : ∀ (ans : List (Nat × Option (List Part))) (acc : List Part) (err : Bool),
+    ((readTopicMetadata.go n ans acc err).1).filter (fun p => p.topic == t) =
+      acc.filter (fun p => p.topic == t) ++ (ans.flatMap fun a => (a.2.getD []).filter (fun p => p.topic == t))
+  | [], acc, err => by simp [readTopicMetadata.go]
+  | (x, none) :: rest, acc, err => by
+    simp only [readTopicMetadata.go, hn, if_true]
+    rw [readTopicMetadata_go t n hn rest acc true]; simp
+  | (x, some ps) :: rest, acc, err => by
+    simp only [readTopicMetadata.go]
+    rw [readTopicMetadata_go t n hn rest (acc ++ ps) err]; simp
+
+theorem filter_filter_topic (cluster : List Part) (t x : Nat) :
+    (cluster.filter (fun p => p.topic == x)).filter (fun p => p.topic == t) =
+      if x = t then cluster.filter (fun p => p.topic == t) else [] := by
+  rw [List.filter_filter]
+  by_cases h : x = t
+  · subst h; simp
+  · simp only [h, if_false, List.filter_eq_nil_iff]
+    intro p _; simp; intro h1 h2; exact h (h2 ▸ h1 ▸ rfl)
+
+
+theorem flatMap_single_nat (f : Nat → List Part) (t : Nat) : ∀ (l : List Nat), l.Nodup → t ∈ l →
+    (∀ x ∈ l, x ≠ t → f x = []) → l.flatMap f = f t
+  | [], _, h, _ => by simp at h
+  | y :: ys, hn, hm, hz => by
+    have hn' := List.nodup_cons.mp hn
+    rw [List.flatMap_cons]
+    rcases List.mem_cons.mp hm with h | h
+    · subst h
+      have : ys.flatMap f = [] := by
+        rw [List.flatMap_eq_nil_iff]; intro x hx
+        exact hz x (List.mem_cons_of_mem _ hx) (fun e => hn'.1 (e ▸ hx))
+      simp [this]
+    · have hy : y ≠ t := fun e => hn'.1 (e ▸ h)
+      rw [hz y List.mem_cons_self hy, List.nil_append]
+      exact flatMap_single_nat f t ys hn'.2 h (fun x hx => hz x (List.mem_cons_of_mem _ hx))
+
+/-- after the fix: whatever topics are missing, for every requested topic the leader is given exactly the cluster's
+partitions of that topic (none for a missing one) -/
+theorem readTopicMetadata_topic (cluster : List Part) (missing topics : List Nat) (hn : topics.Nodup)
+    (hmiss : ∀ p ∈ cluster, ¬ p.topic ∈ missing) (t : Nat) (ht : t ∈ topics) :
+    ((readTopicMetadata (metadataAnswer cluster missing topics)).1).filter (fun p => p.topic == t) =
+      cluster.filter (fun p => p.topic == t) := by
+  have hmt : t ∈ missing → cluster.filter (fun p => p.topic == t) = [] := by
+    intro hm
+    rw [List.filter_eq_nil_iff]; intro p hp; simp; intro e; exact hmiss p hp (e ▸ hm)
+  unfold readTopicMetadata
+  have hlen : (metadataAnswer cluster missing topics).length = topics.length := by simp [metadataAnswer]
+  by_cases hbig : topics.length > 1
+  · rw [readTopicMetadata_go t _ (by rw [hlen]; exact hbig)]
+    simp only [List.filter_nil, List.nil_append, metadataAnswer, List.flatMap_map]
+    rw [flatMap_single_nat _ t topics hn ht]
+    · by_cases hm : t ∈ missing
+      · simp [hm, hmt hm]
+      · simp [hm]
+    · intro x _ hx
+      by_cases hm : x ∈ missing
+      · simp [hm]
+      · simp only [List.contains_iff_mem, hm, if_false, Option.getD_some, Bool.false_eq_true]
+        rw [filter_filter_topic]; simp [hx]
+  · -- a single topic
+    match topics, ht, hbig with
+    | [x], ht, _ =>
+      have hx : t = x := by simpa using ht
+      subst hx
+      by_cases hm : t ∈ missing
+      · simp [metadataAnswer, hm, readTopicMetadata.go, hmt hm]
+      · simp [metadataAnswer, hm, readTopicMetadata.go]
+    | _ :: _ :: _, _, hb => exact absurd (by simp) hb
+
+theorem leaderPartitions_reads (cluster : List Part) (missing : List Nat) (ms : List Member)
+    (hmiss : ∀ p ∈ cluster, ¬ p.topic ∈ missing) (hn : (extractTopics ms).Nodup) :
+    ReadsTopics cluster (extractTopics ms) (leaderPartitions cluster missing ms) := by
+  intro t ht
+  have h := readTopicMetadata_topic cluster missing (extractTopics ms) hn hmiss t ht
+  unfold leaderPartitions
+  refine ⟨by unfold partsOf; rw [h], fun z => ?_⟩
+  unfold ledIn
+  have e : ∀ ps : List Part, ps.filter (fun p => p.topic == t && p.zone == z) =
+      (ps.filter (fun p => p.topic == t)).filter (fun p => p.zone == z) := by
+    intro ps; rw [List.filter_filter]; congr 1; funext p; exact Bool.and_comm _ _
+  rw [e, e, h]
 end Topics
 
 end KV.GroupGlue
